@@ -94,6 +94,27 @@ def chk_by_path(lst, pub, marker):
     return "node-ok-depth%d" % len(lst), []
 
 
+def chk_bip85_entropy(lst, marker):
+    """the path-string entry point of BIP85: entropy(path) must use the key at EXACTLY the components written"""
+    from ..ref import enc
+    text = fmt(lst, "m", marker)
+    w = wallet(False)
+    st, e = attempt(lambda: w.bip85.entropy(text))
+    node = hd.derive(hdscen.ref_root(MASTER), lst)
+    exp = enc.hmac_sha512(b"bip-entropy-from-k", node.k.to_bytes(32, "big"))
+    if st != "ok":
+        return "violation", [V(P + ":bip85.entropy:levels<=5:refused", "bip85.entropy(%r) raised %s" % (text, e))]
+    if bytes(e) != exp:
+        others = {}
+        for alt in itertools.product(*[(i, i ^ H) for i in lst]):
+            n2 = hd.derive(hdscen.ref_root(MASTER), list(alt))
+            others[enc.hmac_sha512(b"bip-entropy-from-k", n2.k.to_bytes(32, "big"))] = alt
+        hint = " (it is the entropy of %s)" % hd.path_str(list(others[bytes(e)])) if bytes(e) in others else ""
+        return "violation", [V(P + ":bip85.entropy:levels<=5:other-key", "bip85.entropy(%r) is not the entropy of the key at that path%s" % (text, hint),
+                               bytes(e).hex()[:32], exp.hex()[:32])]
+    return "entropy-of-written-path", []
+
+
 def classify_malformed(text):
     """reference grammar: root ("/" dec ["'"|"h"])* with range rules. -> None if well-formed, else fault class"""
     parts = text.split("/")
@@ -244,6 +265,8 @@ def execute(case):
                 acc(chk_format(lst, root), {"k": "fmt", "lst": lst, "root": root})
     elif k == "by":
         acc(chk_by_path(case["lst"], case["pub"], case["marker"]), case)
+    elif k == "b85":
+        acc(chk_bip85_entropy(case["lst"], case["marker"]), case)
     elif k == "bad":
         acc(chk_malformed(case["s"], case.get("origin", "fault")), case)
     elif k == "deep":
@@ -270,6 +293,41 @@ def run(ctx):
                 for marker in (("'", "h") if L <= 3 else ("alt",)):
                     cases.append({"k": "by", "lst": list(lst), "pub": pub, "marker": marker})
     ctx.product("by_path-vs-reference", cases, execute)
+    # other consumers of path strings: BIP85's entropy(path)
+    cases = [{"k": "b85", "lst": list(lst), "marker": mk} for L in range(1, 4 if not ctx.thorough else 6) for lst in itertools.product(SUB, repeat=L)
+             for mk in (("'", "h") if L <= 2 else ("alt",))]
+    ctx.product("bip85-entropy-path", cases, execute)
+    # corner classes of the computed intermediates (vf/corners.py): the private key / chain code at the FIRST level of a three-level
+    # path (it feeds the next level) and the x coordinate of a watch-only first level - every byte position 00 / ff, every
+    # first / last byte value
+    from .. import corners
+    from ..ref import enc, secp
+    from ..core import HarnessError
+    rroot = hdscen.ref_root(MASTER)
+    a0 = ctx.seed * 100000 + 3
+
+    def cands_prv():
+        a = a0
+        while True:
+            n1 = hd.ckd_priv(rroot, H + a)
+            yield a, {"key": n1.k.to_bytes(32, "big"), "chain": n1.chain}
+            a += 1
+    kept, st = corners.cover(cands_prv(), {"key": 32, "chain": 32}, 60000, pairs=False)
+    ctx.extra["intermediate_corner_classes_private"] = st
+    cases = [{"k": "by", "lst": [H + a, H + 1, 2], "pub": False, "marker": "'"} for a, _ in kept]
+
+    def cands_pub():
+        a = a0
+        while True:
+            n1 = hd.derive(rroot, [a])
+            yield a, {"cx": n1.K[0].to_bytes(32, "big")}
+            a += 1
+    kept2, st2 = corners.cover(cands_pub(), {"cx": 32}, 60000, pairs=False)
+    ctx.extra["intermediate_corner_classes_public"] = st2
+    if st["covered"] != st["classes"] or st2["covered"] != st2["classes"]:
+        raise HarnessError("corner cover incomplete: %r %r" % (st, st2))
+    cases += [{"k": "by", "lst": [a, 1], "pub": True, "marker": "'"} for a, _ in kept2]
+    ctx.product("intermediate-corners", cases, execute, chunk=8)
     cases = []
     for base in BASES:
         parts = base.split("/")
